@@ -3,12 +3,12 @@
 # applied to a scratch worktree of /repo (RMK_REPO points the harness at it; /repo itself is never touched).
 # usage: tools/try_mutants.sh C04 C05 ...      (no arguments: all seeded changes)
 cd /verif || exit 2
-wt=/tmp/rmk_mut_wt
-[ $# -eq 0 ] && set -- $(ls seeded | sed 's/[A-D]$//' | sort -u)
+wt=${WT:-/tmp/rmk_mut_wt}
+[ $# -eq 0 ] && set -- $(ls seeded | sed 's/[A-F]$//' | sort -u)
 git -C /repo worktree remove --force $wt 2>/dev/null
 git -C /repo worktree add -q --detach $wt HEAD || exit 2
 for pid in "$@"; do
-  for m in ${VARIANTS:-A B C D}; do
+  for m in ${VARIANTS:-A B C D E F}; do
     f=/verif/seeded/$pid$m/patch.diff
     [ -f "$f" ] || continue
     git -C $wt checkout -q -- . 
